@@ -28,6 +28,10 @@
 //	faultmid <graph> down=ab,..  from the fixed point of the topology without the listed links
 //	                    (routers that join later); faults and repairs in EVERY state, so that
 //	                    several topology changes reach a router between two fetches of a neighbour.
+//	hold <graph>        from the cold start, faults in every state, plus the task-delay deviation
+//	                    Xh(i<j): the exchange fetches and stores j's advertisement at i, but the
+//	                    ribUpdate task spawned for it is held back, whatever events follow (X, Dc,
+//	                    LD, RD, ...), until the default event Rl releases it.
 //	faultany <graph>    (thorough) as fault, from the cold start, faults injected in every state.
 //
 // Clauses: C18.adv (every transition: no advertisement entry, on the wire or in Rib.Advert(), with
@@ -49,6 +53,7 @@ import (
 	"verif/harness/dvsim"
 	"verif/mc/explore"
 	"verif/mc/report"
+	"verif/shim/vsched"
 )
 
 type sys struct {
@@ -57,11 +62,15 @@ type sys struct {
 	faults bool
 	// faultsAnywhere: inject faults in every state (else only in fixed points)
 	faultsAnywhere bool
-	trace          *dvsim.Trace
-	m              *dvsim.Machine
-	opsCache       map[string][]explore.Op
-	fromCache      map[string]string
-	rooted         bool
+	// holds: task-delay deviation Xh(i<j): the exchange stores the fetched advertisement, but the
+	// ribUpdate task spawned for it is held back until the default event Rl, whatever happens in
+	// between
+	holds     bool
+	trace     *dvsim.Trace
+	m         *dvsim.Machine
+	opsCache  map[string][]explore.Op
+	fromCache map[string]string
+	rooted    bool
 	// closureDepth > 0: the search is depth-bounded; every state first reached at that depth is
 	// driven to the fixed point by the default fair schedule (round-robin exchanges) and checked
 	closureDepth int
@@ -144,6 +153,19 @@ func (y *sys) ops(s *dvsim.Sim) []explore.Op {
 			ops = append(ops, explore.Op{Name: fmt.Sprintf("Dc(%d)", a)})
 		}
 	}
+	if y.holds {
+		if len(s.Held) > 0 {
+			ops = append(ops, explore.Op{Name: "Rl"})
+		} else {
+			for a := 0; a < n; a++ {
+				for b := 0; b < n; b++ {
+					if a != b && s.LinkLive(a, b) && !sn.Fresh(a, b) {
+						ops = append(ops, explore.Op{Name: fmt.Sprintf("Xh(%d<%d)", a, b), Dev: true})
+					}
+				}
+			}
+		}
+	}
 	if !y.faultsAnywhere {
 		if q, _ := sn.RoutingQuiescent(); !q {
 			return ops
@@ -176,6 +198,14 @@ func applyOp(s *dvsim.Sim, nm string) {
 	case strings.HasPrefix(nm, "X("):
 		fmt.Sscanf(nm, "X(%d<%d)", &a, &b)
 		s.Exchange(a, b)
+	case strings.HasPrefix(nm, "Xh("):
+		// the advertisement is fetched and stored by advertDataHandler; the ribUpdate it spawns
+		// (and everything behind it) is held back
+		fmt.Sscanf(nm, "Xh(%d<%d)", &a, &b)
+		s.HoldBefore("advertDataHandler", nm)
+		s.Exchange(a, b)
+	case nm == "Rl":
+		s.Release()
 	case strings.HasPrefix(nm, "Pg("):
 		fmt.Sscanf(nm, "Pg(%d<%d)", &a, &b)
 		s.Ping(a, b, true)
@@ -362,6 +392,10 @@ func convergeOrder(s *dvsim.Sim, order []int) int {
 		}
 	}
 	for round := 0; round < 64; round++ {
+		if len(s.Held) > 0 {
+			s.Release() // a fair schedule does not delay a task for ever
+			s.EndOp()
+		}
 		for _, a := range order {
 			for _, b := range order {
 				if a != b && s.LinkLive(a, b) {
@@ -390,8 +424,11 @@ func build(cfg string) explore.System {
 		report.Fatal("%v", err)
 	}
 	fam := parts[0]
-	y := &sys{cfg: cfg, g: g, faults: fam != "sched", faultsAnywhere: fam == "faultany" || fam == "faultmid"}
+	y := &sys{cfg: cfg, g: g, faults: fam != "sched", faultsAnywhere: fam == "faultany" || fam == "faultmid" || fam == "hold", holds: fam == "hold"}
 	y.trace = dvsim.NewTrace("C18", cfg)
+	if y.holds {
+		vsched.RecordSites = true
+	}
 	var down [][2]int
 	for _, p := range parts[2:] {
 		fmt.Sscanf(p, "d=%d", &y.closureDepth)
@@ -452,6 +489,17 @@ func configs(th bool) []explore.Config {
 	faultMid := func(g, down string, dev int) {
 		c = append(c, explore.Config{Name: fmt.Sprintf("faultmid %s down=%s", g, down), MaxDepth: 400, MaxDev: dev})
 	}
+	faultMidClosed := func(g string, dev, d, orders int) {
+		c = append(c, explore.Config{Name: fmt.Sprintf("faultmid %s d=%d orders=%d", g, d, orders), MaxDepth: d, MaxDev: dev})
+	}
+	// hold: cold start, faults in every state, and one ribUpdate task delayed past other events
+	hold := func(g string, dev, d int) {
+		if d > 0 {
+			c = append(c, explore.Config{Name: fmt.Sprintf("hold %s d=%d", g, d), MaxDepth: d, MaxDev: dev})
+		} else {
+			c = append(c, explore.Config{Name: "hold " + g, MaxDepth: 400, MaxDev: dev})
+		}
+	}
 	// 5-node graphs in which some router has >= 3 neighbours offering the same destination
 	mesh5 := []string{
 		"n5:02-03-04-12-13-14",    // K2,3: three equal-cost paths 0-{2,3,4}-1
@@ -460,6 +508,7 @@ func configs(th bool) []explore.Config {
 		"n5:01-02-03-04-12-34",    // bow tie: two triangles sharing router 0
 		"n5:01-02-03-12-13-23-34", // K4 with a pendant router
 		"n5:01-04-12-23-34",       // 5-ring
+		"n5:01-02-03-13-14-24",    // router 0 reaches 4 over 1, 2 (2 hops) and 3 (3 hops)
 	}
 	var all []string
 	for n := 2; n <= 4; n++ {
@@ -474,6 +523,7 @@ func configs(th bool) []explore.Config {
 		heavyFault := map[string]bool{"n4:02-03-12-13": true, "n4:01-02-03-12": true, "n4:01-02-03-12-13": true, "n4:01-02-03-12-13-23": true, ring5: true}
 		sched("n2:01", 1, 0)
 		sched("n3:01-02", 1, 0)
+		hold("n2:01", 2, 0)
 		// faults from the fixed point: <= 2 fault / repair events per history
 		for _, g := range append(append([]string{}, all...), line5) {
 			if !heavyFault[g] {
@@ -500,9 +550,20 @@ func configs(th bool) []explore.Config {
 				faultClosed(g, 1, 3, 24)
 			}
 		}
+		// the same with two faults in any state (e.g. a third-ranked neighbour is lost, then the
+		// destination): every order of the first 3 (2) events, closing schedule under 24 router orders
+		for _, g := range all {
+			if strings.HasPrefix(g, "n4") && strings.Count(g, "-")+1 >= 4 {
+				faultMidClosed(g, 2, 3, 24)
+			}
+		}
+		for _, g := range mesh5 {
+			faultMidClosed(g, 2, 2, 24)
+		}
 		// Cold start, every event order. Delivery deviations (sync Interest heard, fetch parked or
 		// timed out while other events happen) multiply the state space by about the number of
 		// directed links per deviation: used on the graphs with <= 3 links.
+		hold("n3:01-02", 2, 0)
 		sched("n4:01-03-12", 1, 0)
 		sched("n4:01-02-03", 1, 0)
 		sched("n3:01-02-12", 1, 0)
@@ -566,6 +627,22 @@ func configs(th bool) []explore.Config {
 			faultClosed(g, 1, 4, 120)
 		}
 	}
+	for _, g := range all {
+		e, n := strings.Count(g, "-")+1, int(g[1]-'0')
+		if e >= n && n == 4 {
+			faultMidClosed(g, 2, 4, 24)
+		} else if e >= n && n == 5 {
+			faultMidClosed(g, 2, 3, 24)
+		}
+	}
+	for _, g := range mesh5 {
+		faultMidClosed(g, 2, 2, 120)
+	}
+	hold("n2:01", 3, 0)
+	hold("n3:01-02", 3, 0)
+	hold("n3:01-02-12", 2, 6)
+	hold("n4:01-02-03", 2, 6)
+	hold("n4:01-03-12", 2, 6)
 	faultMid("n4:01-02-03", "03", 3)
 	faultMid("n4:01-03-12", "12", 3)
 	faultMid("n3:01-02-12", "12", 3)
@@ -661,6 +738,7 @@ func main() {
 			"equal canonical state (live topology, neighbour tables with sequence numbers as relations, RIB costs below infinity, parked fetches) implies equal futures",
 			"fault configurations start from the fixed point of the intact topology and inject faults in fixed points only (thorough adds faultany configurations: cold start, faults in every state); the number of fault/repair events per history is bounded (2 quick, 3 thorough); delivery deviations (parked / timed-out fetch) are bounded (1 quick, 2 thorough) and used on graphs with <= 3 (quick) / <= 4 (thorough) links",
 			"successor states are computed by restoring saved table contents into the live router objects and executing one operation; restores are cross-checked against plain re-execution (first 25 and every 400th per worker; a differential run with VERIF_DV_NOCACHE=1 gives identical state and transition counts)",
+			"task interleaving: spawned tasks run FIFO to quiescence per event, except in the hold configurations, where the ribUpdate task spawned by advertDataHandler for one exchange per history is delayed past arbitrary later events (exchanges, faults, dead checks) and then released",
 			"graphs marked d=N are explored to depth N only; their remaining state space is covered by one schedule (round-robin; orders=K: K round-robin schedules with the routers visited in different orders) per frontier state",
 			"topologies are enumerated up to isomorphism plus hand-labelled 5-router meshes; tie-breaks depend on name hashes, so other labellings of the same graph are different experiments that are only partly covered by varying the closing order",
 		},
